@@ -92,6 +92,8 @@ class Translator:
         self.spec = spec
         self.classes = {}
         self._parse_repo()
+        for alias, real in spec.get("aliases", {}).items():  # the same class under a second layout
+            self.classes[alias] = self.classes[real]
         self.units = {}  # name -> coq text
         self.order = []
         self.sigs = {}  # name -> (param tys, self ty, ret ty)
@@ -592,7 +594,11 @@ class Frame:
         return None
 
     def run_if(self, s, rest, blk):
-        c = self.truth(self.ev(s.test))
+        if self.is_effect_call(s.test):
+            c = self.truth(self.call_stmt(s.test, blk))
+            self.cur = blk
+        else:
+            c = self.truth(self.ev(s.test))
         sb = self.static_bool(c)
         if sb is not None:  # statically decided (isinstance on typed values)
             return self.run(s.body if sb else s.orelse, blk)
@@ -1059,6 +1065,8 @@ class Frame:
                 return V(f"(xmul {coerce(l, NUM).e} {x.e})", NUMX)
             raise Unsupported(f"operator on an extended number: {ast.unparse(n)}")
         if a.ty in (INT, NUM) and b.ty in (INT, NUM):
+            if isinstance(op, ast.Div) and a.ty == INT and b.ty == INT:
+                self.guard(f"(Z.eqb {b.e} 0%Z)", "ZeroDivisionError")  # Python ints: true division by zero raises
             a, b = coerce(a, NUM), coerce(b, NUM)
             f = {ast.Add: "add", ast.Sub: "sub", ast.Mult: "mul", ast.Div: "div"}.get(type(op))
             if f is None:
@@ -1156,7 +1164,7 @@ class Frame:
             return ("builtin", f.id)
         if isinstance(f, ast.Attribute):
             full = ast.unparse(f)
-            if full.split(".")[0] in ("np", "math") and full.split(".")[0] not in self.env:
+            if full.split(".")[0] in ("np", "math", "copy") and full.split(".")[0] not in self.env:
                 return ("builtin", full)
             if isinstance(f.value, ast.Call) and isinstance(f.value.func, ast.Name) and f.value.func.id == "super" and not f.value.args:
                 m = self.tr.mro(self.self.cls)
@@ -1282,6 +1290,16 @@ class Frame:
     def builtin(self, name, n):
         if name == "isinstance":
             return self.isinstance_static(self.ev(n.args[0]), n.args[1])
+        if name in ("copy.deepcopy", "copy.copy") and len(n.args) == 1:
+            x = self.ev(n.args[0])
+            return x.copy() if isinstance(x, O) else x  # value semantics: objects are tuples of their fields
+        if name in ("any", "all") and len(n.args) == 1 and isinstance(n.args[0], ast.List):
+            vs = [self.truth(self.ev(e)) for e in n.args[0].elts]
+            op, unit = ("orb", "false") if name == "any" else ("andb", "true")
+            e = unit
+            for v in vs:
+                e = v.e if e == unit else f"({op} {e} {v.e})"
+            return V(e, BOOL)
         args = [self.ev(a) for a in n.args]
         if name == "len":
             x = args[0]
